@@ -365,6 +365,55 @@ class Check:
         Subclasses may run a deeper enumeration; default: nothing further."""
         return None
 
+    # ---------------------------------------------------------------- replay of a recorded violation file
+    def replay(self, rep):
+        """`./check Cnn --replay <file>`: the cases recorded in a replay file are run again on the CURRENT tree through the harness
+        and the driver and judged as in a normal run: exit 1 (with a VIOLATION line naming the replay) while one of them still
+        fails, exit 0 when all pass. A file that records only broken ties re-checks the proof obligations instead."""
+        path = rep.get("replay", "").split("--replay")[-1].strip() or "replays/%s-%s-seed%d.json" % (self.pid, self.tier, self.seed)
+        self.step_extract()
+        try:
+            build.impl_build()
+        except build.BuildError as e:
+            print("BUILD-ERROR: %s" % e.what)
+            return 2
+        recs = [v for v in rep.get("violations", []) if v.get("impl_ops")]
+        if not recs:
+            self.step_proofs()
+            for b in self.broken_ties[:5]:
+                print("  broken: " + b[:300])
+            if self.broken_ties:
+                print("VIOLATION property=%s replay=%s no-failing-input-found" % (self.pid, path))
+            return 1 if self.broken_ties else 0
+        build.lean_build(["blocv"])
+        cases = []
+        for i, v in enumerate(recs):
+            c = Case("r%d" % i, v.get("case") or "", v["impl_ops"], v.get("meta") or {})
+            cases.append(c)
+        # families that pick one '|' part of the answer record the index in the case they generated; the generators are
+        # deterministic per seed, so the recorded pick is recovered from the generated case with the same lines when there is one
+        try:
+            picks = {(g.model_line, g.impl_line): g.pick for g in self.corpus_cases() + self.gen_cases()}
+            for c in cases:
+                c.pick = picks.get((c.model_line, c.impl_line), c.pick)
+        except Exception:
+            pass
+        hbin = build.harness_build(self.harness)
+        impl = run.run_harness(hbin, ["%s %s" % (c.cid, c.impl_line) for c in cases], timeout_s=self.case_timeout())
+        mlines = ["%s %s" % (c.cid, c.model_line) for c in cases if c.model_line]
+        model = run.run_driver(mlines) if mlines else {}
+        for c in cases:
+            iraw = impl.get(c.cid, "?")
+            m = parse_model(model.get(c.cid, "")) if c.model_line else {}
+            print("case=%s\n  impl=%s\n  model=%s spec=%s" % ((c.model_line or c.impl_line)[:300], str(iraw)[:300], m.get("model"), m.get("spec")))
+            self.judge(c, iraw, m, impl.get(c.cid + "#stderr", ""))
+        for fid, info in sorted(self.known_hits.items()):
+            print("KNOWN-FINDING: property=%s %s [%s]" % (self.pid, info["what"], fid))
+        if self.violations:
+            print("VIOLATION property=%s replay=%s" % (self.pid, path))
+            print("  %s" % self.violations[0]["what"])
+        return 1 if self.violations else 0
+
     # ---------------------------------------------------------------- driver
     def run(self):
         self.step_extract()
